@@ -424,6 +424,25 @@ def slxLine (args impl : List String) : String :=
     s!"{m} | {v} | {String.intercalate "," tags}"
   | _ => "bad-op | |"
 
+/-- slxc <g0> <period> [<mode>] => <class> <class> <class>: the scripts of `slx` through the C API; a call is `ok`
+    when `snapshot()` answered (fresh or from the cache: the scripted records all pass `now()`), `err2`
+    (CLOCKBOUND_ERR_SEGMENT_NOT_INITIALIZED) when the retry budget was used up -/
+def slxcLine (args impl : List String) : String :=
+  match ints args with
+  | some (g0 :: period :: rest) =>
+    let mode := (rest.headD 0).toNat
+    let m := (soloRun {} g0.toNat (max period.toNat 1) mode).splitOn " "
+    let c1 := if m.head? == some "ok" then "ok" else if m.head? == some "err" then "err2" else "unbounded"
+    let cls (pref : String) : String :=
+      match m.find? (fun t => t.startsWith pref) with
+      | some t => if t == pref ++ "err" then "err2" else if t == pref ++ "unbounded" then "unbounded" else "ok"
+      | none => "?"
+    let model := s!"{c1} {cls "then:"} {cls "final:"}"
+    let returned := impl.length == 3 && impl.all (fun t => t != "unbounded")
+    let same := String.intercalate " " impl == model
+    s!"{model} | {verdict "C18" true returned} {verdict "C17" true same} {verdict "C02" true same} {verdict "C04" true same} {verdict "C03" true same} | capi"
+  | _ => "bad-op | |"
+
 /-- crashpt <prior> <k> <k1> <k2> => ev … ; crashed open:… file:… attached:… fresh:… ; restarted … -/
 def crashLine (args0 impl : List String) : String :=
   -- `@old` / `@bin`: age and spelling of the file name; the protocol does not depend on either
@@ -535,6 +554,7 @@ def processLine (line : String) : String :=
   | "sandwich" :: args => (DriverH.line "sandwich" args impl).getD "bad-op | |"
   | "cabi" :: args => (DriverH.line "cabi" args impl).getD "bad-op | |"
   | "slx" :: args => slxLine args impl
+  | "slxc" :: args => slxcLine args impl
   | "skip" :: args => skipLine args impl
   | "slaba" :: _ =>
     -- K1 replay on the real code only (a 360 000-step execution is not simulated by the model): the
